@@ -67,7 +67,7 @@ NSHARDS = {"quick": 8, "thorough": 16}
 TIMEOUT_S = {"quick": 240, "thorough": 1500}
 REQUIRE = {"unreachable_after_zero_or_partial": 1500, "dead_peer_cases_drained": 1000, "hook_evaluations": 20000, "sends_partial": 5000, "sends_zero": 5000, "sends_unreachable": 1000,
            "grams_sent_in_full": 20000, "grams_dropped_unreachable": 500, "progress_checks": 5000,
-           "real_socket_runs": 4, "real_wouldblock_seen": 1}
+           "real_socket_runs": 4, "real_wouldblock_seen": 1, "real_unreachable_after_wouldblock": 1}
 EXHAUSTIVE = {
     "quick": "all acceptance scripts of length <= 5 over {0,1,half,all-1,all} (3905) x 2 service APIs; all scripts of "
              "length <= 3 over those + 10 unreachable errnos (3615); all zero/partial prefixes of length <= 2 followed "
@@ -122,7 +122,7 @@ def cases(tier, seed, shard, nshards):
     nreal = 6 if quick else 24
     for k in range(nreal):
         if k % nshards == shard:
-            kind = ["real-uxd", "real-udp", "real-uxd", "real-udp-unreach"][k % 4]
+            kind = ["real-uxd", "real-udp", "real-uxd-dead", "real-udp-unreach", "real-uxd", "real-uxd-dead"][k % 6]
             yield {"kind": kind, "ngrams": 24 + 4 * (k % 5), "gsize": 1200 + 300 * (k % 3),
                    "drain": 1 + k % 3, "api": ["greedy", "once", "service"][k % 3], "port": 46000 + 37 * k}
     rng = random.Random(f"{seed}:C21:{shard}")
@@ -437,20 +437,23 @@ STARVED_KEY = "starved:unreachable-remainder-kept-in-txbs-blocks-queue"
 
 
 def _starved(m):
-    """State inspection: txbs still holds (part of) a gram for whose destination the transport has reported
-    unreachable, and that is what the model is waiting behind."""
+    """State inspection: txbs still holds (part of) a gram for which the transport has reported its destination
+    unreachable (the gram the tree should have given up on), so nothing behind it can move."""
     model = m._vf_model
     gram, dst = m.txbs
-    return dst is not None and model.i < len(model.G) and model.i in model.unreach and \
-        dst == model.D[model.i] and bytes(gram) and model.G[model.i].endswith(bytes(gram))
+    if dst is None or not bytes(gram):
+        return False
+    loc = model.locate(bytes(gram), dst)
+    return loc is not None and loc[0] in model.unreach
 
 
 def _starved_msg(m, when):
     model = m._vf_model
     gram, dst = m.txbs
+    j = model.locate(bytes(gram), dst)[0]
     behind = [(len(g), d) for g, d in m.txgs]
-    return (f"{when}: {len(gram)} bytes of gram {model.i} stay in txbs for {dst!r} although every retry raises an "
-            f"unreachable errno (send outcomes {model.hist.get(model.i)}); it is neither dropped nor does the queue move "
+    return (f"{when}: {len(gram)} bytes of gram {j} stay in txbs for {dst!r} although every retry raises an "
+            f"unreachable errno (send outcomes {model.hist.get(j)}); it is neither dropped nor does the queue move "
             f"on: {len(behind)} gram(s) behind it {behind[:4]} are never offered to the transport; transport log "
             f"{model.log[-6:]}")
 
@@ -589,6 +592,10 @@ def _recording(base):
 
         def send(self, data, dst, **kwa):
             self._vf_sends += 1
+            self._vf_call_sends = getattr(self, "_vf_call_sends", 0) + 1
+            if self._vf_call_sends > 4 * len(self._vf_model.G) + 20:
+                self._vf_spin = True
+                raise SpinAbort()
             offered = bytes(data)
             try:
                 cnt = super().send(data, dst, **kwa)
@@ -597,6 +604,10 @@ def _recording(base):
                 self._vf_ctx.count("real_send_errno_" + name)
                 if name in ms.UNREACHABLE:
                     self._vf_ctx.count("sends_unreachable")
+                    loc = self._vf_model.locate(offered, dst)
+                    if loc is not None and any(not isinstance(o, str) for o in self._vf_model.hist.get(loc[0], [])):
+                        self._vf_ctx.count("unreachable_after_zero_or_partial")
+                        self._vf_ctx.count("real_unreachable_after_wouldblock")
                     self._vf_observe(offered, dst, name)
                 raise
             if cnt == 0:
@@ -620,7 +631,8 @@ def run_real(case, ctx):
     sender = receiver = None
     trace = []
     try:
-        if kind == "real-uxd":
+        third = None
+        if kind in ("real-uxd", "real-uxd-dead"):
             from hio.core.uxd import peermemoing as uxdpm
             Rec = _recording(uxdpm.PeerMemoer)
             sender = Rec(name="s", temp=False, headDirPath=tmp, bc=1)
@@ -630,6 +642,10 @@ def run_real(case, ctx):
             # environment: a host with a small send buffer, so that an unread receiver really blocks the sender
             sender.ls.setsockopt(socket.SOL_SOCKET, socket.SO_SNDBUF, 4096)
             dst = receiver.path
+            if kind == "real-uxd-dead":
+                third = uxdpm.PeerMemoer(name="g", temp=False, headDirPath=tmp, bc=1)
+                if not third.reopen():
+                    raise AssertionError("harness: could not open third uxd peer")
         else:
             from hio.core.udp import peermemoing as udppm
             Rec = _recording(udppm.PeerMemoer)
@@ -655,20 +671,37 @@ def run_real(case, ctx):
         sender._vf_ctx = ctx
         sender._vf_violation = None
         sender._vf_sends = 0
+        sender._vf_spin = False
         n, gsize = case["ngrams"], case["gsize"]
-        if kind != "real-uxd":
+        if not kind.startswith("real-uxd"):
             gsize = min(gsize, 1000)
+        if kind == "real-uxd-dead":
+            n = 9
         for idx in range(n):
             g = gram_bytes(idx, gsize - idx % 7, False)
             sender.gramit(g, dst)
             model.queue(g, dst)
+        if third is not None:       # grams for a live peer queued behind the ones for the peer that will die
+            for idx in range(n, n + 3):
+                g = gram_bytes(idx, 500 + idx, False)
+                sender.gramit(g, third.path)
+                model.queue(g, third.path)
         got = []
         bound = 6 * n + 20
+        killed = False
         for r in range(bound):
             call_api_real(sender, case["api"])
             trace.append(["call", r])
             if sender._vf_violation is not None:
                 break
+            if kind == "real-uxd-dead":
+                if not killed and any(e[2] == 0 for e in model.log):
+                    receiver.close()          # its queue is full and now it goes away: ENOENT / ECONNREFUSED
+                    killed = True
+                    trace.append(["receiver closed"])
+                if not sender.txgs and sender.txbs[1] is None:
+                    break
+                continue
             if kind != "real-udp-unreach":
                 for _ in range(case["drain"]):
                     data, src = receiver.receive()
@@ -680,8 +713,13 @@ def run_real(case, ctx):
             v = sender._vf_violation
             ctx.violation(v.key, f"[{kind}] " + v.msg + f" | transport log {model.log[-10:]}", trace=trace)
             return
+        if third is not None:
+            for _ in range(8):
+                data, src = third.receive()
+                if data:
+                    got.append(data)
         # drain what is left
-        if kind != "real-udp-unreach":
+        if kind not in ("real-udp-unreach", "real-uxd-dead"):
             for _ in range(4 * n):
                 data, src = receiver.receive()
                 if data:
@@ -689,7 +727,9 @@ def run_real(case, ctx):
         model._skip_dropped() if (model.i in model.unreach and not sender.txgs and sender.txbs[1] is None) else None
         if model.i < len(model.G) or sender.txgs or sender.txbs[1] is not None:
             gram, d = sender.txbs
-            if not sender.txgs and d is not None:
+            if _starved(sender):
+                ctx.violation(STARVED_KEY, f"[{kind}] " + _starved_msg(sender, f"{bound} service rounds"), trace=trace)
+            elif not sender.txgs and d is not None:
                 ctx.violation("stuck:remainder-in-txbs-not-serviced-when-txgs-empty",
                               f"[{kind}] {len(gram)} bytes parked in txbs, txgs empty, no service call sends them",
                               trace=trace)
@@ -702,6 +742,16 @@ def run_real(case, ctx):
         ctx.count("grams_sent_in_full", len(model.full))
         ctx.count("grams_dropped_unreachable", len(model.dropped))
         ctx.count("real_datagrams_received", len(got))
+        if kind == "real-uxd-dead":
+            if not killed:
+                raise AssertionError("harness: the unread uxd peer never made the sender block")
+            ctx.count("dead_peer_cases_drained")
+            want = [model.G[j] for j in model.full if model.D[j] == third.path]
+            if got != want or len(want) != 3:
+                ctx.violation("real-uxd:live-peer-did-not-get-its-grams",
+                              f"live peer received {len(got)} datagrams, expected the 3 queued behind the dead peer's",
+                              trace=trace)
+                return
         if kind == "real-uxd":
             # a unix datagram socket is reliable and ordered: what arrived is what the model saw accepted
             want = [model.G[j] for j in model.full]
@@ -715,10 +765,17 @@ def run_real(case, ctx):
         ctx.sample({"kind": kind, "grams": n, "gram_size": gsize, "sent_in_full": len(model.full),
                     "dropped": len(model.dropped), "received": len(got),
                     "wouldblock_sends": sum(1 for e in model.log if e[2] == 0)})
+    except SpinAbort:
+        if _starved(sender):
+            ctx.violation(STARVED_KEY, f"[{kind}] " + _starved_msg(sender, f"one call of {case['api']} made "
+                          f"{sender._vf_call_sends} send calls and was aborted by the harness"), trace=trace)
+        else:
+            ctx.violation("spin:service-call-keeps-sending", f"[{kind}] one service call made "
+                          f"{sender._vf_call_sends} send calls", trace=trace)
     except OSError as ex:
         ctx.violation(ms.escape_key(ex, "tx-escape"), f"[{kind}] service raised {ex!r}", trace=trace)
     finally:
-        for p in (sender, receiver):
+        for p in (sender, receiver, third):
             try:
                 if p is not None:
                     p.close()
@@ -728,6 +785,7 @@ def run_real(case, ctx):
 
 
 def call_api_real(m, api):
+    m._vf_call_sends = 0
     if api == "once":
         m.serviceTxGramsOnce()
     elif api == "greedy":
